@@ -99,6 +99,46 @@ func TestVerifC07Avc(t *testing.T) {
 			}
 			return NewAVCSample(b[0]).UnmarshalBinary(b[1:]) != nil
 		}},
+		// after-error reuse of one record / sample / NALU object
+		{name: "avc.reuse", gen: func(r *vRng) []byte {
+			switch r.intn(3) {
+			case 0:
+				return append([]byte{0}, vC07Reuse(vC07AvcRecord)(r)...)
+			case 1:
+				return append([]byte{1}, vC07Reuse(func(r *vRng) []byte { return vC07AvcSample(r)[1:] })(r)...)
+			}
+			return append([]byte{2}, vC07Reuse(vC07AvcNalu)(r)...)
+		}, run: func(b []byte) bool {
+			if len(b) < 1 {
+				return true
+			}
+			p1, p2 := vC07Split2(b[1:])
+			switch b[0] % 3 {
+			case 0:
+				v := NewAVCDecoderConfigurationRecord()
+				e1 := v.UnmarshalBinary(p1)
+				_, _ = v.MarshalBinary()
+				e2 := v.UnmarshalBinary(p2)
+				_, e3 := v.MarshalBinary()
+				for _, n := range append(v.SequenceParameterSetNALUnits, v.PictureParameterSetNALUnits...) {
+					_ = n.String()
+				}
+				return e1 != nil && e2 != nil && e3 != nil
+			case 1:
+				v := NewAVCSample(3)
+				e1 := v.UnmarshalBinary(p1)
+				_, _ = v.MarshalBinary()
+				e2 := v.UnmarshalBinary(p2)
+				_, e3 := v.MarshalBinary()
+				return e1 != nil && e2 != nil && e3 != nil
+			}
+			v := NewNALU()
+			e1 := v.UnmarshalBinary(p1)
+			_ = v.String()
+			e2 := v.UnmarshalBinary(p2)
+			_, e3 := v.MarshalBinary()
+			return e1 != nil && e2 != nil && e3 != nil
+		}},
 		{name: "avc.naluheader", sweep: 1, run: func(b []byte) bool {
 			v := NewNALUHeader()
 			err := v.UnmarshalBinary(b)
